@@ -588,6 +588,17 @@ def run_e2e(ctx, g, rng):
     ctx.count(f"e2e:form:{form}")
     ctx.count(f"e2e:layout:{layout}")
     ll = np.array(joker.marginal_ln_likelihood(data, samples, in_memory=True), dtype="f8")
+    ll_paths = {"in-memory": ll}
+    if g["index"] % 5 == 0:
+        # the same call through the cache file on a real multi-process pool: the merged, labelled data travel to the
+        # workers by pickling (helper.__reduce__), where they must still be the correctly labelled data
+        import tempfile
+        import schwimmbad
+        with tempfile.TemporaryDirectory(prefix="verif_c08_") as td:
+            with schwimmbad.MultiPool(2) as pool:
+                jk2 = pr.joker(rng=np.random.default_rng(0), pool=pool, tempfile_path=td)
+                ll_paths["cache file on MultiPool(2)"] = np.array(jk2.marginal_ln_likelihood(data, samples, n_batches=2), dtype="f8")
+        ctx.count("e2e:multi-process")
 
     # ---- the same observations, sorted and labelled by the harness
     where = {}
@@ -657,14 +668,16 @@ def run_e2e(ctx, g, rng):
     if not np.all(np.isfinite(ll_ref)):
         ctx.count("e2e:nonfinite-reference")
         return
-    bad = np.abs(ll - ll_ref) > tol
-    if np.any(bad):
-        k = int(np.argmax(np.abs(ll - ll_ref) / tol))
-        report(ctx, rel, g, inp, dict(ll=list(ll)), dict(ll_labelled=list(ll_ref), ll_labels_in_concatenation_order=list(ll_cat)),
-               "the marginal likelihood of multi-survey data is that of the correctly labelled observations (same real "
-               f"kernel, rows sorted and labelled by the harness): sample {k}: {ll[k]!r} vs {ll_ref[k]!r} (tolerance "
-               f"{tol[k]:.2e}); with labels left in concatenation order the kernel gives {ll_cat[k]!r}",
-               tags=dict(form=form, layout=layout, what="likelihood"))
+    for path_name, ll in ll_paths.items():
+        bad = np.abs(ll - ll_ref) > tol
+        if np.any(bad):
+            k = int(np.argmax(np.abs(ll - ll_ref) / tol))
+            report(ctx, rel, g, dict(inp, path=path_name), dict(ll=list(ll)),
+                   dict(ll_labelled=list(ll_ref), ll_labels_in_concatenation_order=list(ll_cat)),
+                   "the marginal likelihood of multi-survey data is that of the correctly labelled observations (same real "
+                   f"kernel, rows sorted and labelled by the harness), path {path_name}: sample {k}: {ll[k]!r} vs {ll_ref[k]!r} "
+                   f"(tolerance {tol[k]:.2e}); with labels left in concatenation order the kernel gives {ll_cat[k]!r}",
+                   tags=dict(form=form, layout=layout, what="likelihood:" + path_name))
 
 
 def run_case(ctx, g):
@@ -703,3 +716,4 @@ def post(ctx):
     ctx.require("single-source cases", c["single:default"] + c["single:explicit"] + c["single:disabled"], 20)
     ctx.require("refused inputs", sum(v for k, v in c.items() if k.startswith("refuse:")), 10)
     ctx.require("end-to-end likelihood cases sensitive to the labelling", c["e2e:sensitive"], 100 * q)
+    ctx.require("end-to-end cases through a real multi-process pool", c["e2e:multi-process"], 10 * q)
